@@ -139,6 +139,27 @@ PROPS = {
         "level_note": "Trusted: snapshots are taken from the board itself (round-trip oracle); position identity and draw rules from harness/oracle.",
         "technique": "stateful / model-based property testing (rapid): generated push/pop/fork programs, snapshot-stack model, invariant after every step",
     },
+    "C14": {
+        "title": "FEN codec and reported FEN",
+        "run": "^TestC14_",
+        "level": "exploration",
+        "shards": 16,
+        "timeout": 420,
+        "thorough_scale": 12,
+        "rule": "C14/roundtrip: positions from generated games and synthetic odd-material positions x half-move clock 0..150 x move "
+                "number 0..600: fen.Encode must equal the oracle's canonical FEN, decode(encode(x)) must be the identical position "
+                "value / side / clocks, and decode of the canonical string re-encodes to the same string. C14/engine: programs of "
+                "Reset(FEN with clock and move number, either side to move) / Move / TakeBack on an engine; after every operation "
+                "Engine.Position() must be the standard FEN of the oracle game (clock = half-moves since last pawn move or capture, "
+                "move number +1 after each Black move, both restored by take-back). Non-trivial = distinct positions with an e.p. "
+                "square, partial rights, Black to move or unusual clocks (roundtrip); programs containing castling, capture + "
+                "take-back, or a Black-to-move set-up (engine). evaluations = cases.",
+        "assumptions": COMMON_ASSUMPTIONS + ["canonical FEN = the oracle's encoder (castling letters KQkq in that order, '-' when empty)"],
+        "level_text": "Exploration: 40k generated positions with free clocks through both round-trips, and 8k engine programs "
+                      "(~300k operations) compared with an independently maintained standard FEN after every step.",
+        "level_note": "Trusted: harness/oracle FEN codec (self-tested round-trips) and game clock rules.",
+        "technique": "property-based testing (rapid): round-trip oracle on generated positions, model-based oracle on Reset/Move/TakeBack programs",
+    },
 }
 
 # Properties not claimed, with the reason (kept current).
